@@ -1,13 +1,160 @@
-(* C16 - Bundled AES equals FIPS-197/SP 800-38A and the adapter is a pure zero-padded CBC. *)
-From Coq Require Import List NArith ZArith.
+(* C16 - Bundled AES equals FIPS-197/SP 800-38A and the adapter is a pure zero-padded CBC.
+
+   Specification written from the standards: Model/AesSpec.v (validated against the FIPS-197
+   appendix A/B/C and SP 800-38A appendix F vectors in Proofs/AesSpecVectors.v).
+   Tables: Gen/AesTables.v, regenerated from pyaes/aes.py on every run.
+   Model of the code: Model/Aes.v (block cipher), Model/AesModes.v (modes, Counter, block
+   feeder, PKCS7, AES128Proxy), Model/Cbc.v (zero-padded CBC used by the container layer). *)
+From Coq Require Import List Bool NArith ZArith.
 From Coq Require Import Init.Byte.
 From Bec2 Require Import Base.Result Base.Bytes Gen.AesTables Model.Cbc Model.AesSpec Model.Aes Model.AesModes
-  Proofs.AesTablesProofs.
+  Proofs.CbcProofs Proofs.AesTablesProofs Proofs.AesSpecVectors Proofs.AesSpecProofs Proofs.AesProofs
+  Proofs.AesModesProofs.
 Import ListNotations.
 Open Scope N_scope.
 
+(* ---- 1. the fourteen tables, entry by entry, against the GF(2^8) definitions ---------- *)
+
+Theorem C16_tables_lengths :
+  Forall (fun t => length t = 256%nat)
+    [S_tbl; Si_tbl; T1_tbl; T2_tbl; T3_tbl; T4_tbl; T5_tbl; T6_tbl; T7_tbl; T8_tbl; U1_tbl; U2_tbl; U3_tbl; U4_tbl].
+Proof. exact table_lengths. Qed.
+Print Assumptions C16_tables_lengths.
+
+(* S[x] = affine(x^254), Si is its inverse *)
 Theorem C16_tables_sbox : forall x, x < 256 ->
   tbl S_tbl x = sbox x /\ tbl Si_tbl (sbox x) = x /\ tbl S_tbl (tbl Si_tbl x) = x /\
   tbl Si_tbl x = inv_sbox x /\ sbox x < 256 /\ inv_sbox x < 256.
 Proof. exact sbox_tables. Qed.
 Print Assumptions C16_tables_sbox.
+
+(* T1..T4 = (2s, s, s, 3s) and its byte rotations, s = S[x] *)
+Theorem C16_tables_enc : forall x, x < 256 ->
+  let s := sbox x in
+  tbl T1_tbl x = pack4 (gmul 2 s) s s (gmul 3 s) /\
+  tbl T2_tbl x = pack4 (gmul 3 s) (gmul 2 s) s s /\
+  tbl T3_tbl x = pack4 s (gmul 3 s) (gmul 2 s) s /\
+  tbl T4_tbl x = pack4 s s (gmul 3 s) (gmul 2 s).
+Proof. exact enc_tables. Qed.
+Print Assumptions C16_tables_enc.
+
+(* T5..T8 = (14s, 9s, 13s, 11s) and its byte rotations, s = Si[x] *)
+Theorem C16_tables_dec : forall x, x < 256 ->
+  let s := inv_sbox x in
+  tbl T5_tbl x = pack4 (gmul 14 s) (gmul 9 s) (gmul 13 s) (gmul 11 s) /\
+  tbl T6_tbl x = pack4 (gmul 11 s) (gmul 14 s) (gmul 9 s) (gmul 13 s) /\
+  tbl T7_tbl x = pack4 (gmul 13 s) (gmul 11 s) (gmul 14 s) (gmul 9 s) /\
+  tbl T8_tbl x = pack4 (gmul 9 s) (gmul 13 s) (gmul 11 s) (gmul 14 s).
+Proof. exact dec_tables. Qed.
+Print Assumptions C16_tables_dec.
+
+(* U1..U4 = (14x, 9x, 13x, 11x) and its byte rotations *)
+Theorem C16_tables_key : forall x, x < 256 ->
+  tbl U1_tbl x = pack4 (gmul 14 x) (gmul 9 x) (gmul 13 x) (gmul 11 x) /\
+  tbl U2_tbl x = pack4 (gmul 11 x) (gmul 14 x) (gmul 9 x) (gmul 13 x) /\
+  tbl U3_tbl x = pack4 (gmul 13 x) (gmul 11 x) (gmul 14 x) (gmul 9 x) /\
+  tbl U4_tbl x = pack4 (gmul 9 x) (gmul 13 x) (gmul 11 x) (gmul 14 x).
+Proof. exact key_tables. Qed.
+Print Assumptions C16_tables_key.
+
+Theorem C16_tables_rcon :
+  (10 <= length rcon_tbl)%nat /\ forall i, (i < length rcon_tbl)%nat -> nth i rcon_tbl 0 = xpow i.
+Proof. exact rcon_table. Qed.
+Print Assumptions C16_tables_rcon.
+
+Theorem C16_tables_rounds : forall n, In n [16; 24; 32] ->
+  exists r, find (fun p => fst p =? n) number_of_rounds_tbl = Some (n, r) /\ r = n / 4 + 6.
+Proof. exact number_of_rounds_table. Qed.
+Print Assumptions C16_tables_rounds.
+
+(* ---- 4./5. the block cipher ------------------------------------------------------------ *)
+
+(* InvCipher (FIPS-197 5.3) inverts Cipher (5.1), and the equivalent inverse cipher (5.3.5)
+   is the inverse cipher, for every sequence of round keys and every state *)
+Theorem C16_spec_inverse : forall ks s,
+  InvCipher_rk ks (Cipher_rk ks s) = s /\ EqInvCipher_rk ks s = InvCipher_rk ks s.
+Proof. intros ks s. split; [apply InvCipher_Cipher | apply EqInvCipher_rk_eq]. Qed.
+Print Assumptions C16_spec_inverse.
+
+(* AES(key).encrypt/decrypt of the model = Cipher / InvCipher of FIPS-197 with the round
+   keys that the model's key schedule produced, for all keys of 16/24/32 bytes and all blocks.
+   Partial: that these round keys are those of FIPS-197 5.2 KeyExpansion is not proved here. *)
+Theorem C16_block_eq_spec_partial : forall k b, key_ok k = true -> length b = 16%nat ->
+  let rks := map st_of_w4 (expand_Ke k) in
+  aes_encrypt_block k b = Ok (bytes_of_state (Cipher_rk rks (state_of_bytes b))) /\
+  aes_decrypt_block k b = Ok (bytes_of_state (InvCipher_rk rks (state_of_bytes b))).
+Proof.
+  intros k b Hk Hb rks. rewrite <- aes_key_ok_eq in Hk.
+  pose proof (expand_Ke_rows k Hk) as Hr.
+  unfold aes_encrypt_block, aes_decrypt_block. rewrite Hk, (proj2 (blen16 b) Hb). cbn [negb].
+  split; f_equal.
+  - apply encrypt_rk_spec; [apply Forall2_wst_map | exact Hr | exact Hb].
+  - unfold expand_Kd. rewrite <- EqInvCipher_rk_eq.
+    apply decrypt_rk_spec; [apply Forall2_wst_map | exact Hr | exact Hb].
+Qed.
+Print Assumptions C16_block_eq_spec_partial.
+
+(* decryption inverts encryption for every key and block; 16-byte blocks stay 16 bytes *)
+Theorem C16_inverse : forall k b,
+  aes_D k (aes_E k b) = b /\ length (aes_E k b) = length b /\ length (aes_D k b) = length b.
+Proof. intros k b. split; [apply aes_DE_total|]. split; [apply aes_E_length | apply aes_D_length]. Qed.
+Print Assumptions C16_inverse.
+
+Theorem C16_block_functions : forall k b, key_ok k = true -> length b = 16%nat ->
+  aes_encrypt_block k b = Ok (aes_E k b) /\ aes_decrypt_block k b = Ok (aes_D k b).
+Proof. intros k b Hk Hb. split; [apply aes_E_block | apply aes_D_block]; assumption. Qed.
+Print Assumptions C16_block_functions.
+
+(* ---- 2. feeders: every split into chunks gives what the whole input gives ---------------- *)
+
+Theorem C16_feeder_split_block : forall (E D : bytes -> bytes -> bytes) m d pad k iv ctr chunks,
+  m = ECB \/ m = CBC ->
+  stream_crypt E D m d pad k iv ctr chunks = stream_crypt E D m d pad k iv ctr [concat chunks].
+Proof.
+  intros E D m d pad k iv ctr chunks Hm. unfold stream_crypt.
+  destruct (mode_init m k iv ctr) as [st|e]; [|reflexivity]. cbn [bind].
+  apply block_feed_all_split, Hm.
+Qed.
+Print Assumptions C16_feeder_split_block.
+
+(* ---- 3. the adapter ------------------------------------------------------------------------- *)
+
+(* what AES128Proxy does (fresh CBC mode object, Encrypter/Decrypter with padding none, data
+   zero-padded by the proxy) is the zero-padded CBC of Model/Cbc.v over the bundled cipher,
+   including the ValueErrors; mac = last 16 bytes of that.  The functions take (key, iv, data)
+   only: there is no state that a call could leave behind. *)
+Theorem C16_adapter : forall k iv d,
+  proxy_encrypt aes_E aes_D k iv d = adapter_encrypt aes_E k iv d /\
+  proxy_decrypt aes_E aes_D k iv d = adapter_decrypt aes_D k iv d /\
+  proxy_mac aes_E aes_D k iv d = adapter_mac aes_E k iv d.
+Proof.
+  intros k iv d. split; [|split].
+  - apply proxy_encrypt_eq. exact aes_E_len.
+  - apply proxy_decrypt_eq.
+  - apply proxy_mac_eq. exact aes_E_len.
+Qed.
+Print Assumptions C16_adapter.
+
+(* decryption returns exactly the zero-padded data that was encrypted *)
+Theorem C16_adapter_inverse : forall k iv d c,
+  adapter_encrypt aes_E k iv d = Ok c ->
+  adapter_decrypt aes_D k iv c = Ok (zero_pad d) /\ blen c = blen (zero_pad d) /\
+  adapter_mac aes_E k iv d = Ok (lastN 16 c).
+Proof.
+  intros k iv d c H.
+  destruct (adapter_decrypt_encrypt aes_E aes_D aes_E_len aes_DE16 k iv d c H) as [H1 H2].
+  split; [exact H1|]. split; [exact H2|]. unfold adapter_mac. rewrite H. reflexivity.
+Qed.
+Print Assumptions C16_adapter_inverse.
+
+Example C16_nonvacuous :
+  key_ok (H 16 0x2b7e151628aed2a6abf7158809cf4f3c) = true /\
+  aes_E (H 16 0x2b7e151628aed2a6abf7158809cf4f3c) (H 16 0x3243f6a8885a308d313198a2e0370734)
+    = H 16 0x3925841d02dc09fbdc118597196a0b32 /\
+  match adapter_encrypt aes_E (zeros 16) None [x01; x02; x03] with
+  | Ok c => negb (bytes_eqb c []) &&
+            res_eqb bytes_eqb (adapter_decrypt aes_D (zeros 16) None c) (Ok ([x01; x02; x03] ++ zeros 13))
+  | Err _ => false
+  end = true.
+Proof. split; [reflexivity|]. split; vm_compute; reflexivity. Qed.
+Print Assumptions C16_nonvacuous.
